@@ -556,6 +556,12 @@ RESERVED_WORDS = frozenset(
         "for",
         "empty",
         "blank",
+        # Loop arguments, when they follow an array literal in a `for` tag.
+        "limit",
+        "offset",
+        "reversed",
+        "cols",
+        "continue",
     ]
 )
 Segments: TypeAlias = tuple[Union[str, int, "Segments"], ...]
